@@ -954,7 +954,10 @@ func transformOrigin(tokens []Token, _ string) pr.CssProperty {
 		// Ignore third parameter as 3D transforms are ignored.
 		tokens = tokens[:2]
 	}
-	return parse2dPosition(tokens)
+	if position := parse2dPosition(tokens); !position.IsNone() {
+		return position
+	}
+	return nil
 }
 
 // @validator()
@@ -1283,9 +1286,10 @@ func bleed(tokens []Token, _ string) pr.CssProperty {
 	keyword := getKeyword(token)
 	if keyword == "auto" {
 		return pr.DimOrS{S: "auto"}
-	} else {
-		return getLength(token, true, false).ToValue()
+	} else if length := getLength(token, true, false); !length.IsNone() {
+		return length.ToValue()
 	}
+	return nil
 }
 
 // @validator()
@@ -3636,7 +3640,10 @@ func tabSize(tokens []Token, _ string) pr.CssProperty {
 			return pr.NewDim(pr.Float(number.ValueF), 0).ToValue()
 		}
 	}
-	return getLength(token, false, false).ToValue()
+	if length := getLength(token, false, false); !length.IsNone() {
+		return length.ToValue()
+	}
+	return nil
 }
 
 // @validator(unstable=true)
